@@ -2,6 +2,7 @@
 //! prints what it observed as Gallina terms, one line per scenario.
 mod build;
 mod conc;
+mod concreg;
 mod enc;
 mod fmt;
 mod mac;
